@@ -19,7 +19,9 @@ EXTENDS Naturals, Sequences, FiniteSets, TLC, Json
 
 CONSTANTS MaxTower, MaxOps
 
-Layers == {"partial", "wraps", "method"}
+\* "wrapobj": a decorator written as a CLASS -- an instance with a Python-level __call__ that carries __wrapped__
+\* (functools.update_wrapper(self, fn)); like every layer it resolves to what it wraps
+Layers == {"partial", "wraps", "method", "wrapobj"}
 Tops == {"none", "classmethod", "staticmethod"}
 RECURSIVE SeqsUpTo(_, _)
 SeqsUpTo(S, n) == IF n = 0 THEN {<<>>}
